@@ -92,7 +92,7 @@ theorem chk_count (eq : Bool) (s : HSt) (e : ILEffect) (bare : List String) (aft
   rw [chk_eq]
   split
   · exact R.of_eq rfl
-  · have := pop_count eq s.pending (tmpsOfEffect e ++ bare) hnd x
+  · have := pop_count eq s.pending (bare ++ tmpsOfEffect e) hnd x
     cases after <;>
     · simp only [Bool.false_eq_true, ↓reduceIte, setTmps, setTmpsL_append, setTmpsL, List.append_nil, List.count_append]
       cases eq <;> simp only [R_false, R_true] at this ⊢ <;> omega
